@@ -228,6 +228,14 @@ pub enum FinalReply {
     Garbage(Vec<u8>),
     /// well-formed TSRequest with a random token
     RandomToken(Vec<u8>),
+    /// properly sealed and signed, but the plaintext is key + 1 followed by these bytes (more significant bytes of the little-endian number)
+    PlainSuffix(Vec<u8>),
+    /// properly sealed and signed, but the plaintext is these bytes followed by key + 1
+    PlainPrefix(Vec<u8>),
+    /// the honest token with its 8 checksum bytes replaced by a constant ("dummy signature")
+    ConstChecksum(u8),
+    /// RC4(key + 1 of another certificate) obtained by xor-ing into the honest ciphertext, checksum zeroed (relay without the session key)
+    RelayedXor,
 }
 
 #[derive(Serialize, Deserialize, Hash, Clone, Debug)]
@@ -534,7 +542,8 @@ fn credssp(tls: &mut SslStream<UnixStream>, id: &Identity, n: &NlaCfg, rep: &mut
     nla.final_is_honest = match ntlm::parse_ts_request(&reply, false) {
         Ok((r, used)) if used == reply.len() => match r.pub_key_auth {
             // any sequence number is accepted here: a reply signed under the true keys proves the session key whatever its counter
-            Some(tok) => to_client.clone().unseal_any_seq(&tok).map(|k| k == ntlm::increment_le(&id.spk)).unwrap_or(false),
+            // "incremented by one" is a statement about the little-endian number: high-order zero bytes do not change it
+            Some(tok) => to_client.clone().unseal_any_seq(&tok).map(|k| strip_high_zeros(&k) == strip_high_zeros(&ntlm::increment_le(&id.spk))).unwrap_or(false),
             None => false,
         },
         _ => false,
@@ -575,6 +584,14 @@ fn credssp(tls: &mut SslStream<UnixStream>, id: &Identity, n: &NlaCfg, rep: &mut
     };
     rep.nla.credentials = Some(creds);
     true
+}
+
+fn strip_high_zeros(v: &[u8]) -> &[u8] {
+    let mut n = v.len();
+    while n > 0 && v[n - 1] == 0 {
+        n -= 1;
+    }
+    &v[..n]
 }
 
 fn build_final(kind: &FinalReply, id: &Identity, keys: &crypto::SessionKeys, to_client: &SealCtx, honest: &[u8], client_pka: &[u8], ver: u32) -> Vec<u8> {
@@ -663,6 +680,38 @@ fn build_final(kind: &FinalReply, id: &Identity, keys: &crypto::SessionKeys, to_
             let mut c = to_client.clone();
             let _ = c.rc4.apply(&vec![0u8; 1 + *n as usize]);
             wrap(&c.seal(&ntlm::increment_le(spk)))
+        }
+        FinalReply::PlainSuffix(e) => {
+            let mut k = ntlm::increment_le(spk);
+            k.extend_from_slice(e);
+            wrap(&seal(&k))
+        }
+        FinalReply::PlainPrefix(e) => {
+            let mut k = e.clone();
+            k.extend_from_slice(&ntlm::increment_le(spk));
+            wrap(&seal(&k))
+        }
+        FinalReply::ConstChecksum(b) => {
+            let mut t = seal(&ntlm::increment_le(spk));
+            for x in t[4..12].iter_mut() {
+                *x = *b;
+            }
+            wrap(&t)
+        }
+        FinalReply::RelayedXor => {
+            let other = &pki().ids[if std::ptr::eq(id, &pki().ids[1]) { 0 } else { 1 }];
+            let mine = ntlm::increment_le(spk);
+            let theirs = ntlm::increment_le(&other.spk);
+            let mut t = seal(&mine);
+            for x in t[4..12].iter_mut() {
+                *x = 0;
+            }
+            for (i, b) in t[16..].iter_mut().enumerate() {
+                if i < theirs.len() {
+                    *b ^= mine[i] ^ theirs[i];
+                }
+            }
+            wrap(&t)
         }
         FinalReply::WrongSeq(s) => {
             let mut c = to_client.clone();
